@@ -426,6 +426,9 @@ def run_check(prop, tier, seed):
                     notes.append(desc + ' without case in flight; log tail: ' + log[-1500:])
                     fails.append({'replay': '', 'why': desc + '; log: ' + log[-600:], 'crash': True})
             for f in fails:
+                if len(violations) + len(known_hits) >= 3:
+                    notes.append('further failure not replayed (3 already confirmed): %s' % f.get('why', '')[:300])
+                    continue
                 path = f.get('replay', '')
                 if not path:
                     violations.append(('', f['why']))
